@@ -43,6 +43,8 @@ def classify(sc, before, after, planned, src):
             continue                                # partly written, not stamped
         if a is not None and a[0] == 'dir' and f is not None and f[0] == 'dir':
             continue
+        if a is not None and a[0] == 'link' and f is not None and f[0] == 'link':
+            continue
         bad.append((p, b and b[0], a and a[:2], f and f[0]))
     return bad
 
@@ -114,6 +116,12 @@ def check(run):
             if o0.mismatch:
                 run.broke('correspondence', 'e2e-clean', json.dumps({'scenario': sc.to_json(), 'mismatch': o0.mismatch})[:2500])
             planned = o0.impl['after']['dest']
+            if o0.impl['exit'] != 0:
+                # the fault-free run fails by itself (e.g. a folder kept non-empty by a filter): what the plan would
+                # have produced is then read off the source for the included paths, the destination for the others
+                srcs, bef = o0.impl['before']['src'], o0.impl['before']['dest']
+                planned = {q: v for q, v in bef.items() if hidden(sc, q)}
+                planned.update({q: v for q, v in srcs.items() if not hidden(sc, q)})
             n_w = sum(1 for c in o0.impl['dest_cmds'] if c == 'CreateOrUpdateFile')
             mut = [c for c in o0.impl['dest_cmds'] if c in KINDS]
             n_g = o0.impl['src_cmds'].count('GetFileContent')
